@@ -20,13 +20,16 @@ ARG_POOL = [INT, STR, FLT, BOOL, nat('Sequence', INT), nat('Sequence', STR), nat
 ARG_EXPR = {INT: '1', STR: '"s"', FLT: '1.5', BOOL: 'true', nat('Sequence', INT): '[1]', nat('Sequence', STR): '["a"]', nat('Optional', INT): 'some(1)',
             comp('Z'): 'Z(1)', tup(INT, STR): '(1, "s")', nat('Sequence', nat('Sequence', INT)): '[[1]]', comp('P', INT, STR): 'P(1, "s")',
             nat('Mapping', INT, STR): 'mapping<int>().set(1, "s")'}
+F0, F1, F2, F12 = fn(0, [], INT), fn(1, [INT], INT), fn(2, [INT, INT], INT), fn(1, [INT, INT], INT)
+ARG_POOL += [F0, F1, F2, F12]
+ARG_EXPR.update({F0: '(()->{5})', F1: '((x: int)->{x})', F2: '((x: int, y: int)->{x})', F12: '((x: int, y: int ?= 2)->{x})'})
 PRELUDE = 'struct P<A,B>(a: A, b: B)\nstruct Z(n: int)\n'
 
 
 def param_pool(g1, g2):
     a, b = gen(g1), gen(g2)
     return [INT, INT, STR, FLT, nat('Sequence', INT), comp('Z'), a, a, nat('Sequence', a), nat('Optional', a), tup(a, b), comp('P', a, b), b, nat('Sequence', nat('Sequence', a)),
-            nat('Mapping', a, b)]
+            nat('Mapping', a, b), F0, F1, F1, F2, fn(1, [a], INT), fn(1, [INT], a)]
 
 
 def default_expr(t):
@@ -171,11 +174,87 @@ class C05(PropertyCheck):
                     terms.append(term)
                     meta.append({'set': si, 'call': ci, 'variant': vname, 'name': name, 'arguments': [a.show() for a in args],
                                  'overloads': [o2.decl(name) + f'  // level {o2.level}' for o2 in vovs]})
+        # ---------- family 2: a forward-declared overload called from inside the body of ANOTHER overload of the same name
+        fjobs, fterms, fmeta = [], [], []
+        simple = [INT, STR, FLT, comp('Z'), nat('Sequence', INT), gen('T'), nat('Sequence', gen('T')), nat('Optional', gen('T'))]
+        for fi in range(30 if tier == 'quick' else 300):
+            n = rng.choice([2, 2, 3, 4])
+            ovs = []
+            sigs = set()
+            while len(ovs) < n:
+                ar = rng.choice([1, 1, 2])
+                params = [rng.choice(simple) for _ in range(ar)]
+                key = tuple(p.key() for p in params)
+                if key in sigs:
+                    continue
+                sigs.add(key)
+                ovs.append(Ov(len(ovs) + 1, params, ar, 0))
+            a, b = rng.sample(ovs, 2)          # a: forward declared, b: its caller
+
+            def inst_args(o):
+                out = []
+                for p_ in o.params:
+                    same = [x for x in ARG_POOL if x.kind == p_.kind and x.name == p_.name and x.kind != 'fn'] if p_.kind != 'gen' else []
+                    out.append(rng.choice(same or [INT, STR, comp('Z')]))
+                return out
+            args_a, args_b = inst_args(a), inst_args(b)
+            lines = [PRELUDE, f'forward fn ov{("<" + ", ".join(a.gens()) + ">") if a.gens() else ""}(' + ', '.join(f'p{i}: {p_.xr()}' for i, p_ in enumerate(a.params)) + ') -> str;']
+            order = [o for o in ovs if o is not a]
+            rng.shuffle(order)
+            pos_b = order.index(b)
+            for o in order[:pos_b + 1]:
+                if o is b:
+                    gs = o.gens()
+                    ps = ', '.join(f'p{i}: {p_.xr()}' for i, p_ in enumerate(o.params))
+                    inner = 'ov(' + ', '.join(ARG_EXPR[x] for x in args_a) + ')'
+                    lines.append(f'fn ov' + (f'<{", ".join(gs)}>' if gs else '') + f'({ps}) -> str {{ {inner} + "#tag{o.tag}#" }}')
+                else:
+                    lines.append(o.decl('ov'))
+            lines.append(a.decl('ov'))
+            for o in order[pos_b + 1:]:
+                lines.append(o.decl('ov'))
+            lines.append('fn c0() -> str { ov(' + ', '.join(ARG_EXPR[x] for x in args_b) + ') }')
+            # candidates visible inside b's body: b itself (recursion cell), a (forward), and the overloads declared before b
+            vis_inner = [o for o in order[:pos_b + 1]] + [a]
+            fjobs.append({'id': f'f{fi}', 'src': '\n'.join(lines), 'calls': ['c0']})
+            fterms.append(f'obs_resolve [{"; ".join(o.coq() for o in vis_inner)}] [] {clist(args_a)}')
+            fterms.append(f'obs_resolve [{"; ".join(o.coq() for o in ovs)}] [] {clist(args_b)}')
+            fmeta.append({'forward': a.tag, 'caller': b.tag, 'inner_arguments': [x.show() for x in args_a], 'outer_arguments': [x.show() for x in args_b]})
+        # ---------- family 3: comparison operators are dynamic functions that look up the user's cmp overloads
+        ojobs, oterms, ometa = [], [], []
+        ctypes = [comp('Z'), INT, STR, comp('P', INT, STR), nat('Sequence', INT), gen('T')]
+        for oi in range(25 if tier == 'quick' else 250):
+            n = rng.choice([1, 2, 2, 3, 4])
+            ovs, sigs = [], set()
+            while len(ovs) < n:
+                params = [rng.choice(ctypes), rng.choice(ctypes)]
+                if all(p_.kind == 'prim' for p_ in params) or tuple(p_.key() for p_ in params) in sigs:
+                    continue
+                sigs.add(tuple(p_.key() for p_ in params))
+                ovs.append(Ov(len(ovs) + 1, params, 2, 0))
+            decls = []
+            for o in ovs:
+                gs = o.gens()
+                decls.append('fn cmp' + (f'<{", ".join(gs)}>' if gs else '') + f'(p0: {o.params[0].xr()}, p1: {o.params[1].xr()}) -> int {{ let d = display("#tag{o.tag}#"); 0 }}')
+            for ci in range(3):
+                o = rng.choice(ovs)
+                args = []
+                for p_ in o.params:
+                    same = [x for x in [comp('Z'), INT, STR, comp('P', INT, STR), nat('Sequence', INT)] if x.kind == p_.kind and x.name == p_.name] if p_.kind != 'gen' else []
+                    args.append(rng.choice(same or [comp('Z'), INT, STR]))
+                if rng.random() < 0.3:
+                    args[rng.randrange(2)] = rng.choice([comp('Z'), INT, STR, comp('P', INT, STR)])
+                if all(x.kind == 'prim' for x in args) or any(x.kind == 'nat' for x in args) and args[0] == args[1]:
+                    continue          # the library has its own exact / dynamic cmp there
+                for op in ['cmp', 'lt', 'gt', 'le', 'ge']:
+                    ojobs.append({'id': f'o{oi}c{ci}{op}', 'src': PRELUDE + '\n'.join(decls) + f'\nfn c0() -> str {{ to_str({op}({ARG_EXPR[args[0]]}, {ARG_EXPR[args[1]]})) }}', 'calls': ['c0']})
+                    oterms.append(f'obs_resolve [{"; ".join(o2.coq() for o2 in ovs)}] [] {clist(args)}')
+                    ometa.append({'operator': op, 'arguments': [x.show() for x in args], 'overloads': decls})
         # self-check of the library table
         table_jobs = []
         for a in ARG_POOL:
             table_jobs.append({'id': 'lib' + a.show(), 'src': PRELUDE + f'fn c0() -> str {{ to_str({ARG_EXPR[a]}) }}', 'calls': ['c0']})
-        res = core.run_harness(ctx['binary'], jobs + table_jobs, os.path.join(workdir, 'h'), timeout=600)
+        res = core.run_harness(ctx['binary'], jobs + table_jobs + fjobs + ojobs, os.path.join(workdir, 'h'), timeout=600)
         for a in ARG_POOL:
             r = res['lib' + a.show()]
             has = r.get('compile') == 'ok'
@@ -207,6 +286,40 @@ class C05(PropertyCheck):
                     distinct.add(key)
                 if len(samples) < 5 and mt['variant'] == 'original' and (len(samples) % 2 == 0) == m.startswith('chosen'):
                     samples.append({'overloads': mt['overloads'], 'arguments': mt['arguments'], 'outcome': m})
+        fmodel = core.coq_eval(fterms, self.imports, os.path.join(workdir, 'coqf'), shard_size=300, timeout=600)
+        for k, (job, mt) in enumerate(zip(fjobs, fmeta)):
+            inner, outer = fmodel[2 * k], fmodel[2 * k + 1]
+            r = res.get(job['id'])
+            n_eval += 1
+            c = r.get('compile')
+            got = ('ok:' + r['calls'][0]) if c == 'ok' and r.get('calls') else 'rejected'
+            if not inner.startswith('chosen') or not outer.startswith('chosen'):
+                want = 'rejected'
+            else:
+                it, ot = inner.split(':')[1], outer.split(':')[1]
+                want = 'ok:s:' + (f'#tag{it}##tag{ot}#' if int(ot) == mt['caller'] else f'#tag{ot}#')
+                if int(ot) == mt['caller'] and int(it) == mt['caller']:
+                    continue          # unbounded self recursion: not a resolution question
+            if c != 'ok' and '[MissingForwardImplementation]' in (c or ''):
+                continue
+            if got != want:
+                violations.append({'what': 'a forward-declared overload is not resolved like any other visible overload from inside another overload of the same name',
+                                   'case': {'src': job['src'], **mt}, 'impl': got if got != 'rejected' else c, 'model': f'inner call: {inner}; outer call: {outer}; expected {want}'})
+            else:
+                distinct.add(('forward', k))
+        omodel = core.coq_eval(oterms, self.imports, os.path.join(workdir, 'coqo'), shard_size=300, timeout=600)
+        for job, m, mt in zip(ojobs, omodel, ometa):
+            r = res.get(job['id'])
+            n_eval += 1
+            c = r.get('compile')
+            tags = re.findall(r'#tag(\d+)#', r.get('stdout', '') or '')
+            got = ('chosen:' + tags[0]) if c == 'ok' and tags else ('rejected' if c != 'ok' else 'ran-no-user-overload')
+            want = m if m.startswith('chosen') else 'rejected'
+            if got != want:
+                violations.append({'what': f'the dynamic operator function {mt["operator"]} does not run the unique best cmp overload for its operand types (inner lookup of overloads)',
+                                   'case': {'src': job['src'], **mt}, 'impl': got if c == 'ok' else c, 'model': m})
+            else:
+                distinct.add(('op', job['id']))
         outcomes = {}
         for m in model:
             outcomes[m.split(':')[0]] = outcomes.get(m.split(':')[0], 0) + 1
